@@ -5,8 +5,10 @@ import (
 	"fmt"
 	"io"
 	"math/rand"
+	"os"
 
 	"golang.org/x/net/http2"
+	"golang.org/x/net/http2/hpack"
 
 	"verifharness/internal/vh"
 )
@@ -58,7 +60,7 @@ func (e *endpoint) werr(err error, what string) {
 		return
 	}
 	e.s.mu.Lock()
-	e.s.find("connection", "write-failed", fmt.Sprintf("%s: writing %s toward the relay failed: %v", e.name(), what, err), nil)
+	e.s.connFail("write-failed", fmt.Sprintf("%s: writing %s toward the relay failed: %v", e.name(), what, err))
 	e.s.mu.Unlock()
 }
 
@@ -159,8 +161,8 @@ func (e *endpoint) readLoop() {
 			e.s.mu.Lock()
 			e.readErr = err
 			if !e.s.tearing {
-				if err == io.EOF || err == io.ErrClosedPipe || err == io.ErrUnexpectedEOF {
-					e.s.find("connection", "closed-by-relay", fmt.Sprintf("%s: the relay closed the connection during the session: %v", e.name(), err), nil)
+				if _, isConnErr := err.(http2.ConnectionError); !isConnErr && err != http2.ErrFrameTooLarge {
+					e.s.connFail("closed-by-relay", fmt.Sprintf("%s: the relay closed the connection during the session: %v", e.name(), err))
 				} else {
 					e.s.find("order", "invalid-frame-sequence", fmt.Sprintf("%s: frame from the relay rejected by http2.Framer: %v (%v)", e.name(), err, e.fr.ErrorDetail()), nil)
 				}
@@ -170,6 +172,10 @@ func (e *endpoint) readLoop() {
 			return
 		}
 		e.s.mu.Lock()
+		if e.s.failed {
+			e.s.mu.Unlock()
+			continue // aborted: keep draining so that the relay never blocks on us
+		}
 		pend = e.handle(f, pend)
 		e.s.Events++
 		e.s.bump()
@@ -380,6 +386,9 @@ func (e *endpoint) handle(f http2.Frame, pend *pendingBlock) *pendingBlock {
 				case http2.SettingMaxFrameSize:
 					e.peerMFS = int64(st.Val)
 				case http2.SettingHeaderTableSize:
+					if debugLog {
+						fmt.Printf("DEBUG %s got HEADER_TABLE_SIZE %d\n", e.name(), st.Val)
+					}
 					e.encMu.Lock()
 					e.enc.SetMaxDynamicTableSizeLimit(st.Val)
 					e.enc.SetMaxDynamicTableSize(st.Val)
@@ -470,7 +479,7 @@ func winBucket(v int64) string {
 func (e *endpoint) block(p *pendingBlock) {
 	s := e.s
 	d := 1 - e.idx
-	hf, derr := e.dec.DecodeFull(p.buf)
+	hf, derr := e.decodeBlock(p.buf)
 	var got []Field
 	for _, h := range hf {
 		got = append(got, Field{N: h.Name, V: h.Value})
@@ -675,5 +684,47 @@ func (e *endpoint) encode(fs []Field) []byte {
 	for _, f := range fs {
 		e.enc.WriteField(hpackField(f))
 	}
+	if debugLog {
+		b := e.encBuf.Bytes()
+		n := len(b)
+		if n > 10 {
+			n = 10
+		}
+		fmt.Printf("DEBUG %s encode %d fields -> %d bytes, prefix %x\n", e.name(), len(fs), len(b), b[:n])
+	}
 	return append([]byte(nil), e.encBuf.Bytes()...)
+}
+
+var debugLog = os.Getenv("H2X_LOG") != ""
+
+// decodeBlock decodes a header block with this endpoint's decoder. Leading
+// dynamic table size updates are applied one by one first: RFC 7541 4.2 allows
+// several at the start of a block, but x/net's 2019 hpack.Decoder rejects the
+// second one when the table is not empty, which would be the harness's fault.
+func (e *endpoint) decodeBlock(b []byte) ([]hpack.HeaderField, error) {
+	for len(b) > 0 && b[0]&0xe0 == 0x20 {
+		v := uint64(b[0] & 0x1f)
+		n := 1
+		if v == 0x1f {
+			var m uint
+			for {
+				if n >= len(b) || m > 28 {
+					return nil, fmt.Errorf("truncated dynamic table size update")
+				}
+				c := b[n]
+				n++
+				v += uint64(c&0x7f) << m
+				m += 7
+				if c&0x80 == 0 {
+					break
+				}
+			}
+		}
+		if v > uint64(e.htsAllowed) {
+			return nil, fmt.Errorf("dynamic table size update to %d exceeds the announced SETTINGS_HEADER_TABLE_SIZE %d", v, e.htsAllowed)
+		}
+		e.dec.SetMaxDynamicTableSize(uint32(v))
+		b = b[n:]
+	}
+	return e.dec.DecodeFull(b)
 }
